@@ -1,4 +1,5 @@
 import PoryProofs.StmtEmbed2
+import PoryProofs.StmtParseErr2
 import PoryProofs.Properties.C15b
 import PoryProofs.Properties.P1
 /-
@@ -40,7 +41,9 @@ the k-th command id, its implicit data is concatenated in source order.  New loc
 PROVED (every `env`, script name, start token, surrounding state, tail, fuel ≥ `needL b`,
 `needL b ≤ 2 * tokens + 1`):
 * `parse_block_elab`, `parse_block_print`, `parse_block_print_tokens`, `parse_block_reject`,
-  `parse_block_reject_none`, `parse_script_print` — the statements of P1, for the wider grammar;
+  `parse_block_reject_none`, `parse_block_reject_documented` / `violations_documented` (every error is a
+  `Violation env`, PoryProofs/StmtParseErr2.lean), `break_outside_rejected`, `continue_outside_rejected`,
+  `continue_not_last_rejected`, `parse_script_print` — the statements of P1, for the wider grammar;
 * `extends_P1` : the surface syntax of P1 embeds (`ofL`), the embedding commutes with printing
   (`ofL_print`), well-formedness (`ofL_swf`) and elaboration (`ofL_elabE`: statements, implicit data, counters,
   errors), and `P1.parse_block_elab` with the fuel bound in tokens is the special case `ofL b` of
@@ -59,10 +62,9 @@ BEHAVIOUR WORTH KNOWING (model = Go):
   of the FIRST written operand token.
 * After `!` no comparison is parsed (`!var(X) == 1` is outside the grammar: the parser stops after `)` and the
   caller rejects the `==`).
-* `key :` as a poryswitch case: the parser calls the statement parser unless the next token is `}`; so in
-  `A: B: foo` the case `A` consists of the LABEL statement `B:` and `foo` is then rejected as a case key
-  position … (`colon_case_reads_next_key`: `poryswitch (X) { A: B: foo }` ⇒ case `A` = `[label B]`, and `foo`
-  is read as the next case key, which must be followed by `:` or `{`).
+* `key :` as a poryswitch case: the parser calls the statement parser unless the next token is `}`.  So a case
+  without statement is only possible directly before the closing `}`; in `A: B: }` the case `A` consists of
+  the LABEL statement `B:` (`colon_case_reads_next_key`) — there is no case `B`.
 * A failing `format( … )` inside the command of a `switch (cmd(…))` is reported AFTER the scope id of the switch
   was taken and before the position check of the auto-var command.
 -/
@@ -92,6 +94,16 @@ theorem parse_block_print_tokens (env : Env) (sn : String) (startTok : Tok) (b :
       .ok ((stmts, imp), { s with toks := rb :: rest, nextSid := c'.nextSid, nextCmdId := c'.nextCmdId }) :=
   (parse_block_print env sn startTok b rb rest hwf hrb s htoks fuel (fuel_of_tokens b fuel hfuel)
     stmts imp c' helab).1
+
+/-- `elaborate = none` ⇒ the parser fails, with one of the documented located errors (`Violation env`: those of
+P1 and the C07b error of an inline `format( … )`). -/
+theorem parse_block_reject_documented (env : Env) (sn : String) (startTok : Tok) (b : List SStmt) (rb : Tok)
+    (rest : List Tok) (hwf : SWF b) (hrb : rb.type = .RBRACE) (s : PState)
+    (htoks : s.toks = printStmts b ++ rb :: rest) (fuel : Nat) (hfuel : needL b ≤ fuel)
+    (helab : elaborate env sn (ctxOf s) b = none) :
+    ∃ e, Violation env e ∧ (parseBlockStatement env sn startTok fuel [] {}).run s = .error e := by
+  obtain ⟨e, he, hr⟩ := parse_block_reject_none env sn startTok b rb rest hwf hrb s htoks fuel hfuel helab
+  exact ⟨e, violations_documented env sn _ b e he, hr⟩
 
 /-- A whole `script [(global|local)] Name { body }` statement. -/
 theorem parse_script_print (env : Env) (fuel : Nat) (s : PState) (kw : Tok) (md : TopParse.Mod)
@@ -386,6 +398,11 @@ end Example
 #print axioms cond_elab
 #print axioms command_elab
 #print axioms extends_P1
+#print axioms parse_block_reject_documented
+#print axioms violations_documented
+#print axioms break_outside_rejected
+#print axioms continue_outside_rejected
+#print axioms continue_not_last_rejected
 #print axioms colon_case_reads_next_key
 
 end Pory.P1b
